@@ -1355,6 +1355,13 @@ def gen_plan(seed: int, cfg: dict) -> dict:
             what = r.choice(["slots", "slots", "subs", "vars", "abi", "decls"])
             n = r.choice([3, 17, 100, 300, 1000, 4000]) if what in ("slots", "vars") else (r.choice([20, 150, 300]) if what == "decls" else r.choice([2, 9, 40, 120]))
             merged.insert(r.randrange(0, len(merged) + 1), {"op": "churn", "what": what, "n": n})
+        if r.random() < 0.4:
+            # push the slot-id counter to just below a decimal or binary boundary, so that the next
+            # program's slots straddle it (ids compared as text, ids masked to a width, ...)
+            b = r.choice([1000, 1000, 1024, 4096, 10000, 10000, 65536, 100000, 100000, 1000000])
+            tcomp = [i for i, o in enumerate(merged) if o["op"] == "build" and programs[o["p"]]["target"]]
+            at = r.choice(tcomp) if tcomp else r.randrange(0, len(merged) + 1)
+            merged.insert(at, {"op": "churn", "what": "slots_until", "n": b - r.randrange(1, 8)})
 
     if KNOBS["decl_churn"]:
         # many declarations of unrelated programs evaluated and kept between a target's construction and one of its compiles
@@ -1371,7 +1378,7 @@ def gen_plan(seed: int, cfg: dict) -> dict:
     if sm_run:
         # usually on from the start; sometimes switched on only after some programs were built
         first_on = 0 if (r.random() < 0.5 or len(merged) < 4) else r.randrange(len(merged) // 3, len(merged))
-        merged.insert(first_on, {"op": "gate", "feature": "sourcemap_enabled", "value": True})
+        merged.insert(first_on, {"op": "gate", "feature": "sourcemap_enabled", "value": True if r.random() < 0.75 else 1})
         if r.random() < 0.3:
             merged.insert(first_on + 1, {"op": "gate", "feature": "sourcemap_debug", "value": True})
         if r.random() < 0.4 and len(merged) > 4:
